@@ -134,6 +134,40 @@ def gen_instances(classes: Classes, idxs, per_class: int, rng: random.Random, bi
             a = g.instance(c, budget=rng.choice([0, 5, 20, 60]),
                            default_prob=[0.0, 0.3, 0.6, 1.0][k % 4] if k < 4 else None)
             out.append((i, a, values.build(a, c)))
+    out.extend(_implicit_default_instances(classes, idxs, g))
+    return out
+
+
+def _implicit_default_instances(classes, idxs, g):
+    """for every class with a tagged field that has no explicit default: one more instance whose
+    implicitly-defaulted tagged fields hold exactly the default the *model* derives (zero value of
+    the type; for a structure, the instance built from its members' defaults) — the value a writer
+    must omit and a reader must supply.  Random generation practically never hits it."""
+    import dataclasses
+
+    want = [i for i in idxs
+            if any("tag" in f.metadata and f.default is dataclasses.MISSING for f in dataclasses.fields(classes.cls(i)))]
+    if not want:
+        return []
+    replies = driver.run_batch([f"fields {i}" for i in want])
+    out = []
+    for i, r in zip(want, replies):
+        if not r.startswith("ok"):
+            continue
+        c = classes.cls(i)
+        a = g.instance(c, budget=5, default_prob=0.5)
+        vals = list(a[1])
+        ok = True
+        for j, (f, d) in enumerate(zip(dataclasses.fields(c), r.split()[1:])):
+            dv = d.split(":", 3)[3]
+            if "tag" in f.metadata and f.default is dataclasses.MISSING:
+                if dv.startswith("ERR") or dv == "-":
+                    ok = False
+                    break
+                vals[j] = values.parse_str(dv.replace(",", " "))
+        if ok:
+            a = ("E", vals)
+            out.append((i, a, values.build(a, c)))
     return out
 
 
